@@ -1036,6 +1036,8 @@ func init() {
 				mk("list-2t-remote-stmt-b2", 2, map[string]interface{}{"type": "list", "threads": 2, "remote": true, "stmt": true}),
 				mk("doc-3t-remote-b3", 3, map[string]interface{}{"type": "doc", "threads": 3, "remote": true}),
 				mk("doc-2t-stmt-b2", 2, map[string]interface{}{"type": "doc", "threads": 2, "stmt": true}),
+				mk("doc-3t-kept-handle-b3", 3, map[string]interface{}{"type": "doc", "threads": 3, "kept": true}),
+				mk("doc-2t-kept-handle-stmt-b2", 2, map[string]interface{}{"type": "doc", "threads": 2, "kept": true, "stmt": true}),
 				mkd("list-positional-3t-remote-b3", 3, map[string]interface{}{"type": "list", "threads": 3, "remote": true}),
 				mkd("docarr-positional-3t-remote-b3", 3, map[string]interface{}{"type": "docarr", "threads": 3, "remote": true}),
 				mkd("list-ranges-3t-remote-b3", 3, map[string]interface{}{"type": "list", "threads": 3, "remote": true, "many": true}),
@@ -1061,6 +1063,8 @@ func init() {
 				mk("list-3t-remote-stmt-b2", 2, map[string]interface{}{"type": "list", "threads": 3, "remote": true, "stmt": true}),
 				mk("doc-3t-remote-pack-b3", 3, map[string]interface{}{"type": "doc", "threads": 3, "remote": true, "packer": true}),
 				mk("doc-2t-stmt-b3", 3, map[string]interface{}{"type": "doc", "threads": 2, "stmt": true}),
+				mk("doc-3t-kept-handle-b4", 4, map[string]interface{}{"type": "doc", "threads": 3, "kept": true}),
+				mk("doc-2t-kept-handle-stmt-b3", 3, map[string]interface{}{"type": "doc", "threads": 2, "kept": true, "stmt": true}),
 				mkd("list-positional-3t-remote-pack-b4", 4, map[string]interface{}{"type": "list", "threads": 3, "remote": true, "packer": true}),
 				mkd("docarr-positional-3t-remote-pack-b4", 4, map[string]interface{}{"type": "docarr", "threads": 3, "remote": true, "packer": true}),
 				mkd("list-positional-3t-remote-stmt-b2", 2, map[string]interface{}{"type": "list", "threads": 3, "remote": true, "stmt": true}),
